@@ -451,7 +451,7 @@ def add_driver_traces(ctx, res, rng, dims, prop, frozen_bias=False):
                         c['delj'] = False
                         c['layout'] = 'C'
                         cases.append(c)
-                        if P <= 3 and direction == 0:
+                        if direction == 0:
                             # the same with a rate that is zero at the start and switches on later (a function of time)
                             c2 = copy.deepcopy(c)
                             c2['mode'] = 'linear'
